@@ -387,6 +387,27 @@ func runOpsOn(f *fox.Router, opsField string) (outI, outJ, oracles []string) {
 			if (n == 1) != (r != nil) {
 				oracles = append(oracles, "Iter.Routes count and Route disagree on "+a[1]+" "+a[2])
 			}
+			// the same question through a read-only transaction, an (aborted) write transaction and their iterators
+			for _, w := range []bool{false, true} {
+				txn := f.Txn(w)
+				if tr := txn.Route(a[1], unhx(a[2])); tr != r {
+					oracles = append(oracles, fmt.Sprintf("Txn(%v).Route and Router.Route disagree on %s %s", w, a[1], a[2]))
+				}
+				if txn.Has(a[1], unhx(a[2])) != (r != nil) {
+					oracles = append(oracles, fmt.Sprintf("Txn(%v).Has and Router.Route disagree on %s %s", w, a[1], a[2]))
+				}
+				nt := 0
+				for _, r7 := range txn.Iter().Routes(slices.Values([]string{a[1]}), unhx(a[2])) {
+					nt++
+					if r7 != r {
+						oracles = append(oracles, fmt.Sprintf("Txn(%v).Iter.Routes and Router.Route disagree on %s %s", w, a[1], a[2]))
+					}
+				}
+				if (nt == 1) != (r != nil) {
+					oracles = append(oracles, fmt.Sprintf("Txn(%v).Iter.Routes count and Router.Route disagree on %s %s", w, a[1], a[2]))
+				}
+				txn.Abort()
+			}
 			emit(hidOf(r), hidOf(r))
 		case a[0] == "N":
 			s := strconv.Itoa(f.Len())
@@ -420,7 +441,12 @@ func runOpsOn(f *fox.Router, opsField string) (outI, outJ, oracles []string) {
 			emit(strings.Join(items, "+"), sortedJoin(items, "+"))
 		case a[0] == "X":
 			size, mp, depth := fox.VerifTreeStats(f)
-			emit(fox.VerifDumpRouter(f)+" size="+strconv.Itoa(size)+" mp="+strconv.Itoa(int(mp))+" depth="+strconv.Itoa(int(depth)), "-")
+			emit(fox.VerifDumpRouter(f)+" size="+strconv.Itoa(size)+" mp="+strconv.Itoa(int(mp))+" depth="+strconv.Itoa(int(depth))+" rep="+fox.VerifDumpRep(f), "-")
+			// getEdge (linear up to 50 children, bisection above) finds on every node, for every byte, the child a
+			// plain scan finds (theorem Fox.C02.Rep.getEdge_on_reachable says it must)
+			if o := fox.VerifEdgeCheck(f); o != "" {
+				oracles = append(oracles, o)
+			}
 		default:
 			emit("bad-op", "bad-op")
 		}
@@ -1106,6 +1132,79 @@ func genOps(r *Rng, tier string, n int, emit func(string)) {
 				ops = append(ops, "D,"+m+","+hx(Pick(cr, pats)))
 				ops = append(ops, genProbe(cr, pats, methods))
 			}
+		}
+		// families chosen by the case number (not by a draw, so that the other cases of a seed stay what they were)
+		switch c % 32 {
+		case 5:
+			// methods are matched byte for byte: case variants of a registered method name no route, no root, no prefix
+			ops, pats, famProbes, hid = nil, nil, nil, 0
+			m := Pick(cr, []string{"PATCH", "FOO", "REPORT", "GET"})
+			methods = []string{m, "GET"}
+			for _, p := range []string{"/items/{id}", "/items", "/", "/st/*{rest}"} {
+				addH(m, p)
+				if cr.Bool() {
+					addH("GET", p)
+				}
+			}
+			for _, v := range []string{strings.ToLower(m), strings.ToUpper(m), strings.ToUpper(m[:1]) + strings.ToLower(m[1:]), m, "get", "Get"} {
+				famProbes = append(famProbes, "L,"+v+",_,"+hx("/items/42"), "L,"+v+",_,"+hx("/items/"), "R,"+v+","+hx("/items/{id}"),
+					"R,"+v+","+hx("/"), "P,"+v+","+hx("/it"), "P,"+v+"+"+m+","+hx(""))
+			}
+		case 13:
+			// keys with a period: a probe that ends inside an edge whose key repeats the probe's tail is not registered
+			ops, pats, famProbes, hid = nil, nil, nil, 0
+			u := Pick(cr, []string{"a", "ha", "ab", "xy/"})
+			base := Pick(cr, []string{"/", "/p/", "/{v}/"})
+			m := methods[0]
+			for _, i := range cr.Perm(3) {
+				addH(m, base+strings.Repeat(u, []int{1, 3, 6}[i]))
+			}
+			for k := 0; k <= 7; k++ {
+				famProbes = append(famProbes, "R,"+m+","+hx(base+strings.Repeat(u, k)), "P,"+m+","+hx(base+strings.Repeat(u, k)))
+				if k > 0 {
+					q := base + strings.Repeat(u, k)
+					famProbes = append(famProbes, "R,"+m+","+hx(q[:len(q)-1]), "L,"+m+",_,"+hx(strings.ReplaceAll(q, "{v}", "w")))
+				}
+			}
+		case 21:
+			// hostnames with upper-case letters are patterns of their own (registration, Has / Route and iteration are
+			// byte-exact on the pattern), next to their lower-case twins
+			ops, pats, famProbes, hid = nil, nil, nil, 0
+			m := methods[0]
+			fam := []string{"API.Example.com/v1/{id}", "{Tenant}.example.com/", "a.B.c/x", "api.example.com/v1/{id}", "{tenant}.example.com/", "a.b.c/x", "/v1/{id}"}
+			for _, i := range cr.Perm(len(fam))[:3+cr.Intn(len(fam)-2)] {
+				addH(m, fam[i])
+			}
+			for _, q := range fam {
+				famProbes = append(famProbes, "R,"+m+","+hx(q), "P,"+m+","+hx(q[:1+cr.Intn(len(q))]))
+				hp, pp := splitHostPath(q)
+				if hp != "" {
+					famProbes = append(famProbes, "L,"+m+","+hx(instantiate(cr, hp, true))+","+hx(instantiate(cr, pp, false)))
+				}
+			}
+			for i := 0; i < 4; i++ {
+				ops = append(ops, "D,"+m+","+hx(Pick(cr, fam)))
+				addH(m, Pick(cr, fam))
+			}
+		case 29:
+			// a wildcard conflict against a large subtree: the error names every registered route below the other wildcard
+			ops, pats, famProbes, hid = nil, nil, nil, 0
+			m := methods[0]
+			base := Pick(cr, []string{"/c/", "/", "a.b/c/"})
+			w, w2 := Pick(cr, []string{"{a}", "*{a}"}), ""
+			if w[0] == '{' {
+				w2 = "{b}"
+			} else {
+				w2 = "*{b}"
+			}
+			k := 14 + cr.Intn(12)
+			for i := 0; i < k; i++ {
+				addH(m, base+w+"/r"+strconv.Itoa(i)+Pick(cr, []string{"", "/x", "/{y}"}))
+			}
+			addH(m, base+w2+"/r0")
+			addH(m, base+w2)
+			addH(m, base+w)
+			addH(m, base+w2+"/zz")
 		}
 		ops = append(ops, "N", "A", "M")
 		ops = append(ops, famProbes...)
